@@ -148,3 +148,67 @@ pub proof fn lemma_idom_sval_all(w: nat)
     }
     lemma_p2(w); lemma_p2((w - 1) as nat);
 }
+
+/// same width, well-formed, same signed value ==> same bitvector
+pub proof fn lemma_idom_sval_inj(a: Bitvector, b: Bitvector)
+    requires a.wf(), b.wf(), a.w@ == b.w@, a.s() == b.s()
+    ensures a == b,
+{
+    lemma_sval(a.w@, a.u@); lemma_sval(b.w@, b.u@);
+}
+
+/// positive multiple of m is at least m
+pub proof fn lemma_idom_multiple_ge(m: int, d: int)
+    requires m > 0, d > 0, d % m == 0
+    ensures d >= m,
+{
+    vstd::arithmetic::div_mod::lemma_fundamental_div_mod(d, m);
+    let q = d / m;
+    assert(q >= 1) by (nonlinear_arith) requires d == m * q, d > 0, m > 0;
+    assert(m * q >= m) by (nonlinear_arith) requires q >= 1, m > 0;
+}
+
+/// m1 | m2 and m2 | m1 for positive numbers: equal
+pub proof fn lemma_idom_divides_antisym(m1: int, m2: int)
+    requires m1 > 0, m2 > 0, m2 % m1 == 0, m1 % m2 == 0
+    ensures m1 == m2,
+{
+    lemma_idom_multiple_ge(m1, m2); lemma_idom_multiple_ge(m2, m1);
+}
+
+/// the second member of a non-singleton interval: start + stride
+pub proof fn lemma_idom_second_member(a: Interval) -> (v: Bitvector)
+    requires a.inv(), a.stride > 0
+    ensures a.gamma(v), v.s() == a.start.s() + a.stride,
+{
+    let w = a.w();
+    lemma_sval(w, a.start.u@); lemma_sval(w, a.end.u@);
+    lemma_idom_multiple_ge(a.stride as int, a.end.s() - a.start.s());
+    let x = a.start.s() + a.stride;
+    lemma_trunc_sval(w, x);
+    let v = bv(w, trunc(w, x));
+    lemma_divides_mul(a.stride as int, 1);
+    v
+}
+
+/// intervals are canonical: same represented set ==> same interval
+pub proof fn lemma_idom_canonical(a: Interval, b: Interval)
+    requires a.inv(), b.inv(), a.w() == b.w(),
+             forall|v: Bitvector| a.gamma(v) == b.gamma(v),
+    ensures a == b,
+{
+    // bounds are members
+    assert(a.gamma(a.start) && a.gamma(a.end) && b.gamma(b.start) && b.gamma(b.end)) by {
+        if a.stride > 0 { lemma_divides_mul(a.stride as int, 0); }
+        if b.stride > 0 { lemma_divides_mul(b.stride as int, 0); }
+    }
+    assert(b.gamma(a.start) && b.gamma(a.end) && a.gamma(b.start) && a.gamma(b.end));
+    lemma_idom_sval_inj(a.start, b.start);
+    lemma_idom_sval_inj(a.end, b.end);
+    if a.stride > 0 {
+        let va = lemma_idom_second_member(a);
+        let vb = lemma_idom_second_member(b);
+        assert(b.gamma(va) && a.gamma(vb));
+        lemma_idom_divides_antisym(a.stride as int, b.stride as int);
+    }
+}
